@@ -390,6 +390,8 @@ package websocket
 //@          (messageType$head != TypeNone ==> messageType == messageType$head)
 //@   // a frame that does not fit into the buffer, or a message above the limit, ends the read with an error
 //@   assert at "if err != nil || !continuation": [C15,C06 fits] n == Frame.PayloadLength(f) && readBytes <= s.maxMessageSize
+//@   // the message goes on exactly while the FIN bit is clear
+//@   assert at "if err != nil || !continuation": [C06 ends-at-fin] continuation == (f[0] & 128 == 0)
 //@   ensures [in-buffer] 0 <= readBytes && readBytes <= len(b)
 //@   ensures [C15 too-big] readBytes > s.maxMessageSize ==> err != nil
 
@@ -417,5 +419,11 @@ package websocket
 //@          (forall k :: 0 <= k && k < n ==> b[old(readBytes) + k] == Frame.Payload(f)[k])
 //@   assert at "if readBytes > s.maxMessageSize": [C06 type-a] old(messageType) != TypeNone ==> messageType == old(messageType)
 //@   assert at "if readBytes > s.maxMessageSize": [C06 type-b] old(messageType) == TypeNone ==> messageType == MessageType(Frame.Opcode(f))
+//@   // a frame that does not fit into the buffer, or a message above the limit, ends the read with an
+//@   // error - and nothing else does
+//@   assert at "if err != nil || !continuation": [C15,C06 fits] n == Frame.PayloadLength(f) && readBytes <= s.maxMessageSize
+//@   assert call AsyncClose: [C06 too-big-only] readBytes > s.maxMessageSize || n != Frame.PayloadLength(f)
+//@   // the message goes on exactly while the FIN bit is clear
+//@   assert at "if err != nil || !continuation": [C06 ends-at-fin] continuation == (f[0] & 128 == 0)
 //@   // a control frame between fragments changes nothing of the message being assembled
 //@   assert call (*Stream).asyncNextMessage: [C06 carried-on] arg1 == b && arg2 == readBytes && arg3 == continuation && arg4 == messageType && arg5 == callback
